@@ -11,8 +11,9 @@
 (***************************************************************************)
 EXTENDS NFT
 
-VARIABLES l, pre, obs, drift, driftAt
-tvars == <<st, ev, gh, hist, l, pre, obs, drift, driftAt>>
+(* pgh = the ghosts before the last event (the history's ledger the C14_Hist* step clauses judge it by) *)
+VARIABLES l, pre, pgh, obs, drift, driftAt
+tvars == <<st, ev, gh, hist, l, pre, pgh, obs, drift, driftAt>>
 
 Trace == ndJsonDeserialize(IOEnv.TRACE_FILE)
 
@@ -36,7 +37,7 @@ TraceInit ==
   /\ Trace[1].ev.name = "Init"
   /\ st = FromLog(Trace[1].st) /\ pre = FromLog(Trace[1].st)
   /\ obs = ObsOf(Trace[1].st)
-  /\ ev = Trace[1].ev /\ gh = GhostInit /\ hist = <<>>
+  /\ ev = Trace[1].ev /\ gh = GhostOf(FromLog(Trace[1].st)) /\ pgh = GhostOf(FromLog(Trace[1].st)) /\ hist = <<>>
   /\ l = 2 /\ drift = 0 /\ driftAt = 0
 
 Predicted(s, e) ==
@@ -50,9 +51,9 @@ TraceNext ==
          t == FromLog(Trace[l].st)
      IN /\ ev' = e /\ st' = t /\ obs' = ObsOf(Trace[l].st)
         /\ IF e.name = "Init"
-           THEN /\ gh' = GhostInit /\ pre' = t
+           THEN /\ gh' = GhostOf(t) /\ pgh' = GhostOf(t) /\ pre' = t
                 /\ UNCHANGED <<drift, driftAt>>
-           ELSE /\ gh' = CovStep(gh, st, e, t) /\ pre' = st
+           ELSE /\ gh' = CovStep(gh, st, e, t) /\ pgh' = gh /\ pre' = st
                 /\ LET d == Predicted(st, e) # Observed(e, t) IN
                    /\ drift' = drift + (IF d THEN 1 ELSE 0)
                    /\ driftAt' = IF d /\ driftAt = 0 THEN l ELSE driftAt
@@ -80,6 +81,10 @@ Clauses ==
    C14_Supply |-> C14_Supply(st),
    C14_StoreOwner |-> C14_StoreOwner(obs.raw),
    C14_StoreSupply |-> C14_StoreSupply(st, obs.raw),
+   C14_HistOwner |-> C14_HistOwner(st, gh),
+   C14_HistAct |-> C14_HistAct(ev, pgh),
+   C14_HistRestricted |-> C14_HistRestricted(pre, st, pgh),
+   C14_HistSupply |-> C14_HistSupply(st, gh),
    X14_StoreTidy |-> X14_StoreTidy(obs.raw),
    X14_ReadBack |-> X14_ReadBack(st, obs.raw, obs.q),
    Rejected_NoEffect |-> Rejected_NoEffect(pre, ev, st),
